@@ -73,12 +73,16 @@ impl BuildTargetActor {
                             } // TODO Else, if ongoing build, cancel?
                         }
                         ActorInputMessage::Requested { kind: ExecutionKind::Build, requester } => {
-                            let inserted = self.helper.requesters.get_mut(&ExecutionKind::Build).unwrap().insert(requester);
+                            let inserted = self.helper.requesters.get_mut(&ExecutionKind::Build).unwrap().insert(requester.clone());
 
                             if inserted && self.helper.requesters[&ExecutionKind::Build].len() == 1 {
                                 // TODO Eventually, only request deps build (request services when build not skipped)
                                 self.helper.request_dependencies(ExecutionKind::Build).await;
                                 self.helper.request_dependencies(ExecutionKind::Service).await;
+                            }
+
+                            if inserted {
+                                self.helper.notify_late_requester(ExecutionKind::Build, requester).await;
                             }
                         }
                         ActorInputMessage::Requested { kind: ExecutionKind::Service, requester } => {
